@@ -324,7 +324,7 @@ class Interp:
         if sort == "bool":
             return z3.Bool(n)
         if sort == "str":
-            return z3.String(n)
+            raise Unsupported("free string variables are not modelled (use alternatives)")
         if sort == "fp":
             return z3.FP(n, V.FP)
         raise Unsupported(sort)
@@ -490,7 +490,12 @@ class Interp:
         if isinstance(a, S):
             if a.conc() and b.conc():
                 return ordering(0 if a.v < b.v else (1 if a.v == b.v else 2))
-            return ordering(z3.If(a.z() < b.z(), 0, z3.If(a.z() == b.z(), 1, 2)))
+            res = None
+            for c1, x in a.leaves():
+                for c2, y in b.leaves():
+                    o = ordering(0 if x < y else (1 if x == y else 2))
+                    res = o if res is None else ite(band(c1, c2), o, res)
+            return res
         if isinstance(a, Tu):
             res = ordering(1)
             for x, y in reversed(list(zip(a.items, b.items))):
